@@ -54,7 +54,8 @@ def menu(p: GProg):
     m = [("call", None, "a"), ("call", None, "b"), ("executor", None, "a"),
          ("executor", {"T": [t1]}, "a"), ("executor", {"T": [t2]}, "a"), ("executor", {"X": [consumers[-1]]}, "a"),
          ("setup", None, None), ("setup", {"T": [t1]}, None), ("setup", {"T": [t2]}, None), ("deepcopy", None, None),
-         ("mk_executor", None, None), ("run_executor", None, "c"), ("setup", {"T": [t3]}, None), ("setup", {"T": []}, None)]
+         ("mk_executor", None, None), ("run_executor", None, "c"), ("setup", {"T": [t3]}, None), ("setup", {"T": []}, None),
+         ("executor_setup", {"T": [t1]}, None), ("executor_setup", None, None)]
     if any(nd.tag is not None for nd in p.nodes):
         m = m[:3] + [("setup", {"T": [0], "by_tag": True}, None), ("executor", {"T": [2], "by_tag": True}, "a"), ("setup", {"T": [2], "by_tag": True}, None),
                      ("executor", {"T": [0], "by_tag": True}, "a"), ("setup", None, None), ("deepcopy", None, None)]
